@@ -130,6 +130,14 @@ class Validate(Harness):
             for x in [y for y in an + ad if y.rtype in ('A', 'AAAA')]:
                 conds.append(z_and(is_rec(c.v, x), z_or(*[z_and(accepted_ns(n_), leq(full(n_.tlabs), full(x.olabs))) for n_ in ns_src])))
             ex.require(z_or(*conds), 'delegation-foreign', 'Delegation: a record that is neither an NS owned by the delegation name nor an address of a host such an NS names is used')
+        # a referral must be strictly better than the delegation in use: feeding the new delegation's own match count
+        # back in (as the resolver loop does) must not yield the same or a shallower delegation again
+        mc2 = ex.call_fn(w.method('Nameservers', 'match_count'), [Ref(Cell(ex.copyval(deleg)))])
+        ex.require(int_eq(mc2, Int(len(mname), 'usize')), 'match-count', 'Nameservers::match_count() is not the number of labels the referral comparisons use')
+        r2 = ex.call_fn(w.find_fn(r'^validate_nameserver_response$'), [Ref(Cell(question)), Ref(Cell(msg)), mc2])
+        if r2.variant == 1 and vname(w, r2.fields[0].v) == 'Delegation':
+            m2 = name_labels(w, fld(w, fld(w, r2.fields[0].v, 'delegation'), 'name'))
+            ex.require(len(m2) > len(mname), 'delegation-not-better', 'the same reply yields a referral that is not deeper than the one just followed')
         return {'cls': 'Delegation', 'sample': self.describe(ex.get_model(), 'Delegation')}
 
     def describe(self, m, kind):
@@ -189,6 +197,10 @@ fn replay() {
             for rr in response.answers.iter().chain(response.authority.iter()) {
                 if rr.rtype_with_data.rtype() == RecordType::NS && question.name.is_subdomain_of(&rr.name) && rr.name.labels.len() > %d { assert!(rr.name.labels.len() <= delegation.name.labels.len(), "VERIF-VIOLATED [{tag}] deeper delegation ignored"); }
             }
+            assert!(delegation.match_count() == delegation.name.labels.len(), "VERIF-VIOLATED [{tag}] match_count {} for a name of {} labels", delegation.match_count(), delegation.name.labels.len());
+            if let Some(NameserverResponse::Delegation { delegation: d2, .. }) = validate_nameserver_response(&question, &response, delegation.match_count()) {
+                assert!(d2.name.labels.len() > delegation.name.labels.len(), "VERIF-VIOLATED [{tag}] second referral {:?} not deeper than {:?}", d2.name, delegation.name);
+            }
         }
     }
 }
@@ -201,7 +213,7 @@ def run_replay_resolver(world, pid, name, src, host, desc):
     path = save_replay(pid, name, src, desc)
     broken = [p for p, (okk, txt) in res.items() if okk is None]
     if broken: return None, path, 'replay build/run problem: ' + res[broken[0]][1][-800:]
-    failed = [p for p, (okk, txt) in res.items() if okk is False and 'VERIF-VIOLATED' in txt]
+    failed = [p for p, (okk, txt) in res.items() if okk is False and ('VERIF-VIOLATED' in txt or 'panicked at' in txt)]
     return (len(failed) > 0), path, '; '.join(f'{p}: {"FAILED" if okk is False else "passed"}' for p, (okk, _) in res.items())
 
 
@@ -247,4 +259,4 @@ def harnesses(world, tier, seed):
     ]
     if not q:
         hs.append(Validate(name='validate-3an', nan=3, nau=1, nad=0, types=('A', 'NS', 'CNAME'), qtypes=(1,), bounds={'reply': 'answers 3, authority 1'}, assumptions=('the reply holds at most one CNAME per owner name in its answer section',), expected_classes=('Answer', 'CNAME', 'Delegation')))
-    return hs, (480 if q else 3000), None
+    return hs, (1500 if q else 5400), None
